@@ -121,7 +121,7 @@ def gen_cases(ctx):
         cs = all_customs(levels)
         subsets = [list(s) for k in range(len(cs) + 1) for s in itertools.combinations(cs, k)]
         if q:
-            pick = [subsets[0], subsets[-1]] + rng.sample(subsets[1:-1], 2)
+            pick = [subsets[0], subsets[-1]] + rng.sample(subsets[1:-1], 1)
         else:
             pick = subsets
         for j, s in enumerate(pick):
@@ -143,7 +143,11 @@ def gen_cases(ctx):
     def craft(levels, redact, unlisted=(), lst=None, kind="", post=()):
         return {"fmt": "jpeg", "levels": levels, "kind": kind, "post": [list(p) for p in post],
                 "top": {"intent": "edit", "redact": redact, "craft": {"unlisted": list(unlisted), "list": lst}}}
-    depth_sets = [[2], [1, 1]] if q else [[2], [1, 1], [1, 1, 1]]
+    depth_sets = [[2]] if q else [[2], [1, 1], [1, 1, 1]]
+    if q:
+        # depth 2 in the quick tier: the two crafted cases that need a chain
+        cases.append(craft([1, 1], [tgt(1, "com.verif.shared")], unlisted=[tgt(0, "com.verif.shared")], kind="entry-for-other-manifest"))
+        cases.append(craft([1, 1], [], unlisted=[tgt(rng.randrange(2), custom(0, 0) if False else "com.verif.shared")], kind="unlisted-removal"))
     for levels in depth_sets:
         d = len(levels)
         lv = rng.randrange(d)
@@ -356,7 +360,7 @@ def evaluate(ctx, cases, with_model=True):
         todo.append((c, r))
     # ---- correspondence
     if with_model and todo:
-        out = common.coq_eval("C20", HEADER, [model_expr(c) for c, _ in todo], shard_size=12)
+        out = common.coq_eval("C20", HEADER, [model_expr(c) for c, _ in todo], shard_size=4)
         for (c, r), mo in zip(todo, out):
             d = len(c["levels"])
             if mo == "CraftFailed":
